@@ -209,7 +209,15 @@ func (l *Backoff) incBackoff(key string) {
 
 	counter := &atomic.Uint64{}
 	counter.Add(1)
-	l.hitCounters.SetDefault(key, counter)
+
+	// Another goroutine may have created the counter in the meantime.  Never
+	// replace it, or the hits it has counted are lost.
+	err := l.hitCounters.Add(key, counter, cache.DefaultExpiration)
+	if err != nil {
+		if counterVal, ok = l.hitCounters.Get(key); ok {
+			counterVal.(*atomic.Uint64).Add(1)
+		}
+	}
 }
 
 // hasHitRateLimit checks if the value of requests for given subnet hit the
@@ -226,7 +234,15 @@ func (l *Backoff) hasHitRateLimit(subnetIPStr string, count uint, ivl time.Durat
 		l.reqCounters.SetDefault(subnetIPStr, r)
 	} else {
 		r = NewRequestCounter(count, ivl)
-		l.reqCounters.SetDefault(subnetIPStr, r)
+
+		// Another goroutine may have created the counter of this subnet in the
+		// meantime.  Never replace it, or the requests it has counted are lost.
+		err := l.reqCounters.Add(subnetIPStr, r, cache.DefaultExpiration)
+		if err != nil {
+			if rVal, ok = l.reqCounters.Get(subnetIPStr); ok {
+				r = rVal.(*RequestCounter)
+			}
+		}
 	}
 
 	above := r.Add(time.Now())
